@@ -16,7 +16,7 @@ from aaverisk_lib import Case, Exact, close, TOL
 
 PROPERTY = "C12"
 LEAN_MODULES = ["Proofs.C12", "Proofs.C12.Loop", "Proofs.C12.Pick", "Proofs.C12.Refine", "Proofs.C12.RefineStep", "Proofs.C12.RefineLoop",
-                "Proofs.C12.DebtCheck", "Proofs.C12.RefineUpdate", "Proofs.C12.Units"]
+                "Proofs.C12.DebtCheck", "Proofs.C12.RefineUpdate", "Proofs.C12.Units", "Proofs.C12.Round35"]
 DRIVERS = ["driver_aaverisk"]
 RULE = ("portfolios over the uppercase symbols of the four risk-parameter CSVs: 1-3 collateral supplies (+ optional non-collateral supply), "
         "1-3 debts, liquidity/borrow indices 1..3 different per token, prices log-uniform over 11 decades (1e-6 .. 1e5), debts scaled so that the health factor "
